@@ -376,6 +376,8 @@ func panicClass(p any) string {
 		return "index or slice out of range"
 	case strings.Contains(s, "nil pointer"):
 		return "nil pointer dereference"
+	case strings.Contains(s, "uncomparable"):
+		return "comparing uncomparable type"
 	case strings.Contains(s, "nil map"):
 		return "assignment to nil map"
 	case strings.Contains(s, "makeslice"), strings.Contains(s, "out of memory"):
